@@ -248,6 +248,33 @@ fn cmd_replay(args: &[String]) {
         let p = engine_a::profile(prop, thorough);
         reset(Src::Script { v, pos: 0 }, true);
         engine_a::run(&p, true)
+    } else if prop == "ALLK" {
+        let cs: u64 = arg(args, "--case-seed").expect("--case-seed").parse().expect("case seed");
+        let mut p = engine_a::profile("C02", false);
+        p.cancel_pct = 0;
+        p.panic_pct = 0;
+        p.max_n = 5;
+        p.big_pct = 0;
+        let f = arg(args, "--fault").unwrap_or("none");
+        let parts: Vec<&str> = f.split(':').collect();
+        let fault = match parts[0] {
+            "cancel" => engine_a::Fault::CancelAt(parts[1].parse().unwrap()),
+            "panic" => engine_a::Fault::PanicAt(parts[1].parse().unwrap(), parts[2].parse().unwrap()),
+            _ => engine_a::Fault::None,
+        };
+        reset(Src::Rng(cs), true);
+        engine_a::run_fault(&p, false, fault)
+    } else if let (Some(c), "C") = (arg(args, "--cancel"), engine) {
+        let cs: u64 = arg(args, "--case-seed").expect("--case-seed").parse().expect("case seed");
+        #[cfg(feature = "fc-alloc")]
+        {
+            engine_c::run_fault(prop, thorough, cs, sub, Some(c.parse().unwrap_or(usize::MAX)))
+        }
+        #[cfg(not(feature = "fc-alloc"))]
+        {
+            let _ = (c, cs);
+            panic!("engine C not available")
+        }
     } else {
         let cs: u64 = arg(args, "--case-seed").expect("--case-seed").parse().expect("case seed");
         run_one(engine, prop, thorough, cs, sub)
@@ -327,6 +354,74 @@ fn cmd_dfs(args: &[String]) {
     write_out(out, &s);
 }
 
+/// Systematic crash-point sweep (C02): for each generated case, first run it to completion, then re-run the same
+/// case and schedule with the combinator dropped after k polls for EVERY k in 0..=polls, and with a panic injected
+/// at EVERY script position of EVERY leaf (engine A); engine C pipelines are cancelled after every k.
+fn cmd_allk(args: &[String]) {
+    let prop = arg(args, "--prop").unwrap_or("C02");
+    let seed: u64 = arg(args, "--seed").unwrap_or("1").parse().expect("seed");
+    let iters: u64 = arg(args, "--iters").unwrap_or("1000").parse().expect("iters");
+    let out = arg(args, "--out");
+    let (si, sn) = {
+        let s = arg(args, "--shard").unwrap_or("0/1");
+        let mut it = s.split('/');
+        (it.next().unwrap().parse::<u64>().unwrap(), it.next().unwrap().parse::<u64>().unwrap())
+    };
+    let t0 = std::time::Instant::now();
+    let mut acc = Acc::new();
+    let mut p = engine_a::profile("C02", false);
+    p.cancel_pct = 0;
+    p.panic_pct = 0;
+    p.max_n = 5;
+    p.big_pct = 0;
+    let (mut cases, mut cancel_runs, mut panic_runs) = (0u64, 0u64, 0u64);
+    for it in 0..iters {
+        let case_seed = mix(mix(seed, fnv(b"allk")), si * 1_000_003 + it * sn.max(1) + 7);
+        cases += 1;
+        let co = cfg!(feature = "fc-alloc") && it % 4 == 3;
+        if co {
+            #[cfg(feature = "fc-alloc")]
+            {
+                let base = engine_c::run_fault("C02", false, case_seed, it, Some(usize::MAX));
+                let polls = base.root_polls;
+                absorb(&mut acc, prop, "C-allk", base, format!("replay --engine C --profile C02 --tier quick --case-seed {case_seed} --sub {it} --cancel none"));
+                for k in 0..=polls.min(40) {
+                    let o = engine_c::run_fault("C02", false, case_seed, it, Some(k));
+                    cancel_runs += 1;
+                    absorb(&mut acc, prop, "C-allk", o, format!("replay --engine C --profile C02 --tier quick --case-seed {case_seed} --sub {it} --cancel {k}"));
+                }
+            }
+            continue;
+        }
+        reset(Src::Rng(case_seed), true);
+        let base = engine_a::run_fault(&p, false, engine_a::Fault::None);
+        let (polls, lens) = (base.root_polls, base.leaf_lens.clone());
+        absorb(&mut acc, prop, "A-allk", base, format!("replay --engine A --profile ALLK --case-seed {case_seed} --fault none"));
+        for k in 0..=polls.min(40) {
+            reset(Src::Rng(case_seed), true);
+            let o = engine_a::run_fault(&p, false, engine_a::Fault::CancelAt(k));
+            cancel_runs += 1;
+            absorb(&mut acc, prop, "A-allk", o, format!("replay --engine A --profile ALLK --case-seed {case_seed} --fault cancel:{k}"));
+        }
+        for (i, l) in lens.iter().enumerate().take(8) {
+            for at in 0..(*l).min(8) {
+                reset(Src::Rng(case_seed), true);
+                let o = engine_a::run_fault(&p, false, engine_a::Fault::PanicAt(i, at));
+                panic_runs += 1;
+                absorb(&mut acc, prop, "A-allk", o, format!("replay --engine A --profile ALLK --case-seed {case_seed} --fault panic:{i}:{at}"));
+            }
+        }
+    }
+    let wall = t0.elapsed().as_secs_f64();
+    if let Some(pth) = out {
+        if pth != "-" {
+            write_sigs(&format!("{pth}.sigs"), &acc.sigs);
+        }
+    }
+    let s = summary_json(&acc, prop, "allk", seed, (si, sn), wall, &format!(",\"allk_cases\":{cases},\"allk_cancel_points\":{cancel_runs},\"allk_panic_points\":{panic_runs}"));
+    write_out(out, &s);
+}
+
 fn cmd_sigs_merge(args: &[String]) {
     let mut all: HashSet<u64> = HashSet::new();
     for f in &args[2..] {
@@ -388,6 +483,7 @@ fn main() {
         "run" => cmd_run(&args),
         "replay" => cmd_replay(&args),
         "dfs" => cmd_dfs(&args),
+        "allk" => cmd_allk(&args),
         "sigs-merge" => cmd_sigs_merge(&args),
         "config" => println!("{}", config_name()),
         _ => {
